@@ -129,6 +129,44 @@ func runC08(r *mc.Run) {
 			add(fmt.Sprintf("quote/%s^bit%d", f.name, bit), m, o)
 		}
 	}
+	// 1b. every length from 0 to four times the field size (+1), contents = the quote's value repeated
+	for _, f := range optFields {
+		for n := 0; n <= 4*f.len+1; n++ {
+			v := make([]byte, n)
+			for i := range v {
+				v[i] = raw0[f.off+i%f.len]
+			}
+			o := &validate.Options{}
+			f.set(o, v)
+			add(fmt.Sprintf("length/%s=%d", f.name, n), raw0, o)
+		}
+	}
+	for pos := 0; pos < 4; pos++ {
+		for n := 0; n <= 4*48+1; n++ {
+			o := &validate.Options{}
+			for i := 0; i < 4; i++ {
+				o.TdQuoteBodyOptions.Rtmrs = append(o.TdQuoteBodyOptions.Rtmrs, append([]byte(nil), raw0[48+328+48*i:48+376+48*i]...))
+			}
+			v := make([]byte, n)
+			for i := range v {
+				v[i] = raw0[48+328+48*pos+i%48]
+			}
+			o.TdQuoteBodyOptions.Rtmrs[pos] = v
+			add(fmt.Sprintf("length/Rtmrs[%d]=%d", pos, n), raw0, o)
+		}
+	}
+	for pos := 0; pos < 2; pos++ {
+		for n := 0; n <= 4*48+1; n++ {
+			o := &validate.Options{}
+			v := make([]byte, n)
+			for i := range v {
+				v[i] = raw0[48+136+i%48]
+			}
+			o.TdQuoteBodyOptions.AnyMrTd = [][]byte{append([]byte(nil), raw0[48+136:48+184]...), append([]byte(nil), raw0[48+136:48+184]...)}
+			o.TdQuoteBodyOptions.AnyMrTd[pos] = v
+			add(fmt.Sprintf("length/AnyMrTd[%d]=%d", pos, n), raw0, o)
+		}
+	}
 	// 2. RTMR lists
 	rt := func(i int, kind int) []byte {
 		v := append([]byte(nil), raw0[48+328+48*(i%4):48+376+48*(i%4)]...)
